@@ -36,12 +36,19 @@ def pure_unit(prop, fn, contract, doms, case='', contracts=None, extra_inline=()
         eng.assume(pre)
         if not eng.prefix:
             eng.cover('%s precondition satisfiable' % qn)
+        # exceptional clauses of the contract: the body must raise exactly then
+        exc_cond = False
+        for cnd, cls in contract.raises:
+            exc_cond = sym.lor(exc_cond, cnd(*args))
         try:
             r = eng.call(fn, args)
         except PyRaise as e:
-            eng.oblige('safe.host', 'body raises %s under its precondition' % e.exc.cls.__name__, False,
+            ok = sym.lor(*[sym.land(cnd(*args), issubclass(e.exc.cls, cls)) for cnd, cls in contract.raises]) if contract.raises else False
+            eng.oblige('safe.host', 'body raises %s only where the contract says so' % e.exc.cls.__name__, ok,
                        detail=str(e.exc.attrs.get('args')))
             return
+        eng.oblige('raises', 'body raises where the contract says so', sym.lnot(exc_cond))
+        eng.assume(sym.lnot(exc_cond))
         exp = the_spec(eng, *args)
         dc = dontcare(*args) if dontcare else False
         eng.oblige('post', 'result == spec', sym.lor(dc, values_eq(r, exp)))
